@@ -212,6 +212,7 @@ class Net:
         self.loss = loss                  # callable(frame_index, src, dst, frame) -> True if the frame is lost for dst
         self.fifo = {}                    # stack idx -> list of (arrival, seqno, frame)
         self.wake = {}                    # stack idx -> virtual time of the next pass (None = running now)
+        self.blocked = {}
         self.bus = []                     # (t, src, can_id, data, fd) in bus order
         self.errors = []                  # (stack, where, exception name)
         self.seq = 0
@@ -226,6 +227,7 @@ class Net:
     def attach(self, s):
         self.fifo[s.idx] = []
         self.wake[s.idx] = self.w.now
+        self.blocked[s.idx] = False       # True while the thread sits in queue.get(timeout): a token ends the wait AND is consumed
         self.spins[s.idx] = 0
         s.on_send = self._on_send
 
@@ -262,13 +264,23 @@ class Net:
         e = s.notify(can_id, data)
         if e:
             self.errors.append((s.idx, 'notify', e))
+        self._token(s)
+
+    def _token(self, s):
+        """a wake-up token may have been put: a thread blocked in queue.get() returns at once and the token is gone (the
+        real get() consumes it); a thread that is running keeps the token for its next get()"""
         if s.wq.tokens > 0:
-            self.wake[s.idx] = min(self.wake[s.idx], self.w.now) if self.wake[s.idx] is not None else self.w.now
+            if self.blocked.get(s.idx) and self.wake[s.idx] is not None:
+                s.wq.tokens -= 1
+                self.blocked[s.idx] = False
+                self.wake[s.idx] = min(self.wake[s.idx], self.w.now + self.tick_latency(self.rng, s.idx))
+            else:
+                self.wake[s.idx] = min(self.wake[s.idx], self.w.now) if self.wake[s.idx] is not None else self.w.now
 
     def poke(self, s):
         """an application call may have produced a wake token"""
-        if s.wq.tokens > 0 and not s.dead:
-            self.wake[s.idx] = self.w.now if self.wake[s.idx] is None else min(self.wake[s.idx], self.w.now)
+        if not s.dead:
+            self._token(s)
 
     def at(self, t, fn):
         """schedule an application action (runs between frame deliveries and passes, like another thread would)"""
@@ -309,6 +321,7 @@ class Net:
             _, _, can_id, data = self.fifo[i].pop(0)
             self._deliver(s, can_id, data)
         else:
+            self.blocked[i] = False
             r = s.tick()
             if r[0] == 'exc':
                 self.errors.append((i, 'tick', r[1]))
@@ -316,9 +329,11 @@ class Net:
             elif r[0] == 'sleep':
                 self.spins[i] = 0
                 self.wake[i] = self.w.now + r[1] + self.tick_latency(self.rng, i)
+                self.blocked[i] = True
                 if s.wq.tokens > 0:
                     # a wake-up request that arrived after the thread decided to sleep ends the sleep at once
                     s.wq.tokens -= 1
+                    self.blocked[i] = False
                     self.wake[i] = self.w.now + self.tick_latency(self.rng, i)
             elif r[0] == 'woken':
                 self.spins[i] = 0
